@@ -119,9 +119,9 @@ func checkC06(c *Ctx) {
 		}
 		return fn.Name
 	}
-	for _, fn := range f.Prog.Funcs {
-		lbl := fnLabel(fn)
-		ir.WalkFunc(fn, func(t ir.Term) bool {
+	for _, at := range f.Attributed() {
+		lbl := fnLabel(at.Owner)
+		ir.WalkFunc(at.Body, func(t ir.Term) bool {
 			switch x := t.(type) {
 			case *ir.FuncRef:
 				if strings.HasPrefix(x.Key, f.Path+".") {
